@@ -407,6 +407,17 @@ def check_decoded(ctx, case):
     if t == "int":
         pt = parameter_types.IntegerParameterType("T", encodings.IntegerDataEncoding(case["bits"], case["sign"]))
         kind = "int"
+    elif t == "ctxint":
+        # integer with a context calibrator that does not apply (it compares the field's own raw value with a number
+        # the field does not hold): no separate raw value exists, the value is the plain integer
+        from space_packet_parser.xtce import calibrators, comparisons
+        bits_ = format(int.from_bytes(data, "big"), f"0{8 * len(data)}b")[case.get("offset", 0):case.get("offset", 0) + case["bits"]]
+        cc = calibrators.ContextCalibrator(
+            [comparisons.Comparison(str(int(bits_, 2) + 1), "P", "==", use_calibrated_value=False)],
+            calibrators.PolynomialCalibrator([calibrators.PolynomialCoefficient(2.0, 1)]))
+        pt = parameter_types.IntegerParameterType("T", encodings.IntegerDataEncoding(case["bits"], "unsigned",
+                                                                                     context_calibrators=[cc]))
+        kind = "int"
     elif t == "calint":
         # calibrated integer: the value is a float, the raw value must stay the encoded integer, exactly
         from space_packet_parser.xtce import calibrators
@@ -453,7 +464,7 @@ def check_decoded(ctx, case):
         if type(v.raw_value) is not int or v.raw_value != int(bits, 2):
             return ctx.fail("decoded-raw", f"{case}: raw_value {v.raw_value!r} ({type(v.raw_value).__name__}) of a "
                                            f"calibrated integer, the encoded value is {int(bits, 2)}", case)
-    if t in ("int", "float", "bytes") and not same(_plain_any(v.raw_value), _plain_any(v)):
+    if t in ("int", "ctxint", "float", "bytes") and not same(_plain_any(v.raw_value), _plain_any(v)):
         return ctx.fail("decoded-raw", f"{case}: raw_value {v.raw_value!r} differs from uncalibrated value {v!r}", case)
     if not v.raw_value and not same(_plain_any(v.raw_value), _plain_any(v)):
         ctx.nontrivial(("d", case))
@@ -540,7 +551,7 @@ def gen_packet(draw):
 
 @st.composite
 def gen_decoded(draw):
-    t = draw(st.sampled_from(["int", "float", "bool", "enum", "str", "bin", "calint"]))
+    t = draw(st.sampled_from(["int", "float", "bool", "enum", "str", "bin", "calint", "ctxint"]))
     if t == "float":
         bits = draw(st.sampled_from([16, 32, 64]))
     elif t == "str":
@@ -599,6 +610,30 @@ def part_zeros(ctx):
                         return ctx.fail("decoded-zero-sign", f"{bits}-bit float {x!r} decoded in the sequence {seq}: {what} is "
                                                              f"{got!r}", case, bucket="decoded-zero-sign")
     ctx.domain("signed-zero sequences x float widths", n)
+    # enumerations may give one label to several raw values: every decoded value carries ITS raw value, whatever was
+    # decoded before by the same type object
+    from space_packet_parser.xtce import parameter_types as _pt
+    m = 0
+    for bits in (3, 8):
+        et = _pt.EnumeratedParameterType("T", encodings.IntegerDataEncoding(bits, "unsigned"),
+                                         enumeration={0: "OFF", 1: "ON", 2: "SAFE", 3: "SAFE", 5: "ON"})
+        param = parameters.Parameter("P", et)
+        for seq in ([2, 3, 2, 3], [3, 2], [1, 5, 1, 0, 5], [5, 5, 1]):
+            for raw in seq:
+                pkt = packets.CCSDSPacket(raw_data=bytes([raw << (8 - bits)]))
+                param.parse(pkt)
+                v = pkt["P"]
+                ctx.count()
+                m += 1
+                ctx.nontrivial_distinct()
+                ctx.cls("decoded enumeration labels shared by several raw values, in sequence")
+                lab = {0: "OFF", 1: "ON", 2: "SAFE", 3: "SAFE", 5: "ON"}[raw]
+                if str(v) != lab or type(v.raw_value) is not int or v.raw_value != raw or \
+                        copy.copy(v).raw_value != raw or pickle.loads(pickle.dumps(v)).raw_value != raw:
+                    return ctx.fail("decoded-enum-raw", f"{bits}-bit enumeration, raw values decoded in the sequence {seq}: "
+                                                        f"raw {raw} gave {str(v)!r} with raw_value {v.raw_value!r}",
+                                    {"ptype": "enum-sequence", "bits": bits, "sequence": seq}, bucket="decoded-enum-raw")
+    ctx.domain("duplicated-label enumeration sequences", m)
 
 
 def part_packets(ctx, examples):
